@@ -44,6 +44,20 @@ var inputs = map[string]string{
 	"tconflict": "grammar calc;\nAA = /[a-z]+/\nBB = /[a-z][a-z]*/\nstart = AA BB;\n",
 	"lalr":      "grammar calc;\nstart = start \"+\" start | \"i\";\n",
 	"keyword":   "grammar func;\nstart = \"a\";\n",
+	"valid3":    bigSpec(),
+}
+
+// bigSpec is a specification with many keywords: its lexer.go is the largest file of the package.
+func bigSpec() string {
+	var b strings.Builder
+	b.WriteString("grammar big;\nID = /[a-z][a-z0-9_]*/\nNUM = /[0-9]+(\\.[0-9]+)?/\nSTR = $STRING\n")
+	words := []string{"begin", "end", "procedure", "function", "while", "repeat", "until", "record", "array", "const", "program", "downto", "otherwise", "implementation", "interface", "inherited", "constructor", "destructor", "packed", "forward"}
+	b.WriteString("start = { stmt \";\" } ;\nstmt = ID \":=\" expr")
+	for _, w := range words {
+		fmt.Fprintf(&b, " | \"%s\" expr", w)
+	}
+	b.WriteString(" ;\nexpr = ID | NUM | STR | \"(\" expr \")\" ;\n")
+	return b.String()
 }
 
 var goKeywords = map[string]bool{"break": true, "default": true, "func": true, "interface": true, "select": true, "case": true, "defer": true, "go": true, "map": true, "struct": true, "chan": true, "else": true, "goto": true, "package": true,
@@ -117,6 +131,29 @@ type Config struct {
 	Name     string   `json:"name"`
 	Extra    []string `json:"extra"` // -debug -verbose -help -version
 	Fsize    int      `json:"fsize"` // > 0: the run is subject to a file-size limit (write fault injection, prlimit --fsize)
+	// FsizeDelta > 0: the limit is FsizeDelta bytes below the size of the FsizeFile-th largest file of the package (so that the
+	// fault hits the last part of that file); resolved against the in-process rendering
+	FsizeFile  int `json:"fsize_file"`
+	FsizeDelta int `json:"fsize_delta"`
+}
+
+// renderRef renders the package of a specification in process and returns the directory that holds it.
+func renderRef(src, name string) (string, error) {
+	ref, err := os.MkdirTemp("", "c16ref")
+	if err != nil {
+		return "", err
+	}
+	sp, perr := spec.Parse("in.ebnf", strings.NewReader(src))
+	if perr != nil {
+		os.RemoveAll(ref)
+		return "", fmt.Errorf("parse: %v", perr)
+	}
+	sp.Name = name
+	if gerr := golang.Generate(ui.NewNop(), &golang.Params{Path: ref, Spec: sp}); gerr != nil {
+		os.RemoveAll(ref)
+		return "", gerr
+	}
+	return ref, nil
 }
 
 func (c Config) String() string { b, _ := json.Marshal(c); return string(b) }
@@ -149,7 +186,7 @@ func checkConfig(c Config) (summary string, err error) {
 	default:
 		_ = os.WriteFile(inPath, []byte(src), 0o644)
 	}
-	validInput = validInput && (c.Input == "valid" || c.Input == "valid2" || c.Input == "keyword")
+	validInput = validInput && (c.Input == "valid" || c.Input == "valid2" || c.Input == "valid3" || c.Input == "keyword")
 	// output location
 	outDir := work
 	var args []string
@@ -178,6 +215,8 @@ func checkConfig(c Config) (summary string, err error) {
 		switch c.Input {
 		case "valid", "syntax", "lexical", "semantic", "pattern", "tconflict", "lalr":
 			effective = "calc"
+		case "valid3":
+			effective = "big"
 		case "valid2":
 			effective = "lists"
 		case "keyword":
@@ -231,6 +270,24 @@ func checkConfig(c Config) (summary string, err error) {
 	if err != nil {
 		return "", err
 	}
+	if c.FsizeDelta > 0 {
+		c.Fsize = 1000
+		if validInput && nameClass(name) == "usable" && !(c.Input == "keyword" && name == "") {
+			if ref, rerr := renderRef(src, effective); rerr == nil {
+				var sizes []int
+				for _, f := range sixFiles {
+					if info, serr := os.Stat(filepath.Join(ref, effective, f)); serr == nil {
+						sizes = append(sizes, int(info.Size()))
+					}
+				}
+				sort.Sort(sort.Reverse(sort.IntSlice(sizes))) // FsizeFile 0 is the largest file
+				if k := c.FsizeFile % len(sixFiles); k < len(sizes) && sizes[k] > c.FsizeDelta {
+					c.Fsize = sizes[k] - c.FsizeDelta
+				}
+				os.RemoveAll(ref)
+			}
+		}
+	}
 	cmd := exec.Command(os.Getenv("VERIF_EMERGE_BIN"), args...)
 	if c.Fsize > 0 {
 		// every write that would make a regular file larger than Fsize bytes fails (EFBIG)
@@ -252,6 +309,12 @@ func checkConfig(c Config) (summary string, err error) {
 		return "", err
 	}
 	where := fmt.Sprintf("emerge %s (cwd %s)\noutput:\n%s", strings.Join(args, " "), work, out)
+	if c.Fsize > 0 {
+		where = fmt.Sprintf("under a file-size limit of %d bytes: %s", c.Fsize, where)
+	}
+	if os.Getenv("VERIF_DEBUG") != "" {
+		fmt.Fprintf(os.Stderr, "DEBUG exit=%d %s\n", code, where)
+	}
 	// 1. nothing that existed before is modified, truncated or deleted
 	var pre []string
 	for p := range before {
@@ -328,19 +391,11 @@ func checkConfig(c Config) (summary string, err error) {
 	if strings.Join(created, "\n") != strings.Join(want, "\n") {
 		return summary, fmt.Errorf("a successful run must create exactly <out>/<name> with its six files; created: %v, expected: %v\n%s", created, want, where)
 	}
-	ref, err := os.MkdirTemp("", "c16ref")
-	if err != nil {
-		return summary, err
-	}
-	defer os.RemoveAll(ref)
-	sp, perr := spec.Parse("in.ebnf", strings.NewReader(src))
-	if perr != nil {
-		return summary, fmt.Errorf("harness: the valid input does not parse in process: %v", perr)
-	}
-	sp.Name = effective
-	if gerr := golang.Generate(ui.NewNop(), &golang.Params{Path: ref, Spec: sp}); gerr != nil {
+	ref, gerr := renderRef(src, effective)
+	if gerr != nil {
 		return summary, fmt.Errorf("the binary succeeds but the same generation fails in process: %v\n%s", gerr, where)
 	}
+	defer os.RemoveAll(ref)
 	for _, f := range sixFiles {
 		got, _ := os.ReadFile(filepath.Join(outDir, effective, f))
 		exp, _ := os.ReadFile(filepath.Join(ref, effective, f))
@@ -360,11 +415,11 @@ func checkConfig(c Config) (summary string, err error) {
 
 var hasPrlimit = func() bool { _, err := exec.LookPath("prlimit"); return err == nil }()
 
-var names = []string{"pkg", "P2", "über", "x_1", "func", "package", "go", "string", "nil", "len", "_", "9x", "a-b", "a b", "a/b", "../x", "pkg/", "./pkg", "", "calc", "Type", "__"}
+var names = []string{"pkg", "P2", "über", "x_1", "func", "package", "go", "string", "nil", "len", "_", "9x", "a-b", "a b", "a/b", "../x", "pkg/", "./pkg", "", "calc", "Type", "__", "v\u00b2", "part\u2163", "x\u0663", "\u0663x", "a\u0301", "\u00e9t\u00e9"}
 
 func genConfig(t *rapid.T) Config {
 	c := Config{
-		Input:    rapid.SampledFrom([]string{"valid", "valid", "valid", "valid2", "syntax", "lexical", "semantic", "pattern", "tconflict", "lalr", "keyword", "missing", "directory"}).Draw(t, "input"),
+		Input:    rapid.SampledFrom([]string{"valid", "valid", "valid3", "valid3", "valid2", "syntax", "lexical", "semantic", "pattern", "tconflict", "lalr", "keyword", "missing", "directory"}).Draw(t, "input"),
 		OutFlag:  rapid.SampledFrom([]string{"", "=", " ", "="}).Draw(t, "outFlag"),
 		OutState: rapid.SampledFrom([]string{"dir", "dir", "dir", "missing", "file"}).Draw(t, "outState"),
 		Pre:      rapid.SampledFrom([]string{"none", "none", "dir", "dirwithfiles", "file", "symlinkdir", "dangling", "unrelated"}).Draw(t, "pre"),
@@ -380,7 +435,12 @@ func genConfig(t *rapid.T) Config {
 		}
 	}
 	if hasPrlimit && rapid.IntRange(0, 4).Draw(t, "writeFault") == 0 {
-		c.Fsize = rapid.SampledFrom([]int{1, 100, 600, 2000, 2901, 2902, 2903, 3500, 6000, 9000, 9800, 12000, 20000}).Draw(t, "fsize")
+		if rapid.Bool().Draw(t, "absoluteLimit") {
+			c.Fsize = rapid.SampledFrom([]int{1, 100, 600, 2000, 3500, 6000, 9000, 12000, 20000}).Draw(t, "fsize")
+		} else {
+			c.FsizeFile = rapid.SampledFrom([]int{0, 0, 0, 0, 1, 2, 5}).Draw(t, "fsizeFile")
+			c.FsizeDelta = rapid.SampledFrom([]int{1, 2, 17, 100, 1000, 4095, 4096, 4097}).Draw(t, "fsizeDelta")
+		}
 	}
 	switch rapid.IntRange(0, 14).Draw(t, "info") {
 	case 0:
@@ -400,13 +460,16 @@ func TestConfigurations(t *testing.T) {
 	rec.Check(t, 500, 20000, func(t *rapid.T) {
 		c := genConfig(t)
 		summary, err := checkConfig(c)
-		nt := c.Pre != "none" || !(c.Input == "valid" || c.Input == "valid2")
+		nt := c.Pre != "none" || !(c.Input == "valid" || c.Input == "valid2" || c.Input == "valid3")
 		cls := []string{"input_" + c.Input, "pre_" + c.Pre, "name_" + nameClass(c.Name), summary}
 		if c.OutFlag != "" {
 			cls = append(cls, "out_"+c.OutState)
 		}
-		if c.Fsize > 0 {
+		if c.Fsize > 0 || c.FsizeDelta > 0 {
 			cls = append(cls, "write_fault_injected")
+		}
+		if c.FsizeDelta > 0 {
+			cls = append(cls, "write_fault_in_last_part_of_a_file")
 		}
 		rec.Case(c.String(), nt, cls...)
 		rec.Sample(c.Input+"/"+c.Pre, c)
